@@ -22,7 +22,7 @@ theorem mulAdjoint_two (a b c d : α) :
        [0 + c * Amp.conj P a + d * Amp.conj P b, 0 + c * Amp.conj P c + d * Amp.conj P d]] := by
   simp [mulAdjoint, LMat.mul, LMat.transpose, LMat.dot, LMat.mapEntries, List.range_succ]
 
-theorem mul_two (a b c d a' b' c' d' : α) :
+theorem lmul_two (a b c d a' b' c' d' : α) :
     LMat.mul [[a, b], [c, d]] [[a', b'], [c', d']] =
       [[0 + a * a' + b * c', 0 + a * b' + b * d'], [0 + c * a' + d * c', 0 + c * b' + d * d']] := by
   simp [LMat.mul, LMat.transpose, LMat.dot, List.range_succ]
@@ -207,7 +207,7 @@ theorem u3_decomp (hh : LawfulHalf α P) (θ φ l : P) :
     (matrix (.U3 θ φ l) : LMat α) =
       scale (expi (Amp.phalf α (Amp.padd α φ l)))
         (LMat.mul (matrix (.RZ φ)) (LMat.mul (matrix (.RY θ)) (matrix (.RZ l)))) := by
-  simp only [matrix, matU3, matRZ, matRY, mul_two, scale_two, conj_polar_one h, expi,
+  simp only [matrix, matU3, matRZ, matRY, lmul_two, scale_two, conj_polar_one h, expi,
     hh.cos_phalf_padd, hh.sin_phalf_padd]
   have e1 := hh.cos_phalf_twice φ; have e2 := hh.sin_phalf_twice φ
   have e3 := hh.cos_phalf_twice l; have e4 := hh.sin_phalf_twice l
